@@ -62,6 +62,9 @@ type Run struct {
 	Exhaustive bool
 	capped     []string
 	out        *os.File
+	// replay mode: `--replay <file>` re-runs the (deterministic) check and reports whether the
+	// violation class recorded in the file is reproduced
+	replayKey string
 }
 
 type violation struct {
@@ -85,7 +88,25 @@ func NewRun(id, tier, level string, out *os.File) *Run {
 		}
 	}
 	r.Deadline = r.start.Add(budget)
-	_ = os.RemoveAll(filepath.Join(Root, "replays", id))
+	for i, a := range os.Args {
+		if a == "--replay" && i+1 < len(os.Args) {
+			bz, err := os.ReadFile(os.Args[i+1])
+			if err != nil {
+				r.Infra("cannot read replay file: %v", err)
+			}
+			var rf struct {
+				Property string `json:"property"`
+				Key      string `json:"key"`
+			}
+			if err := json.Unmarshal(bz, &rf); err != nil || rf.Property != id {
+				r.Infra("replay file is not a %s replay", id)
+			}
+			r.replayKey = rf.Key
+		}
+	}
+	if r.replayKey == "" {
+		_ = os.RemoveAll(filepath.Join(Root, "replays", id))
+	}
 	bz, err := os.ReadFile(filepath.Join(Root, "known_findings.json"))
 	if err == nil {
 		var kf knownFile
@@ -199,6 +220,27 @@ func (r *Run) Get(key string) int {
 
 // Finish writes the evidence file, prints KNOWN-FINDING / VIOLATION lines and exits.
 func (r *Run) Finish() {
+	if r.replayKey != "" {
+		r.mu.Lock()
+		found := r.knownHit[r.replayKey] > 0
+		path := ""
+		for _, v := range r.violations {
+			if v.Key == r.replayKey {
+				found = true
+				path = v.Replay
+			}
+		}
+		r.mu.Unlock()
+		if found {
+			fmt.Fprintf(r.out, "REPLAY reproduced: class %s fails again on the current tree\n", r.replayKey)
+			if path != "" {
+				fmt.Fprintf(r.out, "VIOLATION property=%s replay=%s\n", r.ID, path)
+			}
+			os.Exit(ExitViolation)
+		}
+		fmt.Fprintf(r.out, "REPLAY not reproduced: class %s does not fail on the current tree\n", r.replayKey)
+		os.Exit(ExitOK)
+	}
 	r.mu.Lock()
 	cov := r.Cov
 	cov["exhaustive"] = r.Exhaustive
